@@ -91,10 +91,20 @@ def cosim(design, vectors, sequential, top_name=None, text=None, stop_on_x=True)
     out.modules = len(d.mods)
     fatal = [x for x in d.diags if x.code.startswith('parse:') or x.code in (
         'module_defined_twice', 'undefined_module', 'undeclared_identifier', 'port_not_found', 'duplicate_declaration')]
+    # an undeclared name used as a plain port connection is an implicit scalar net (IEEE 1364 6.10): C03 reports the missing declaration,
+    # but the text still has a defined behaviour and that behaviour is what C01 compares
+    implicit = set()
+    for mi_ in d.mods.values():
+        for inst in mi_.instances:
+            for pn, e in inst.conns:
+                if isinstance(e, vlog.parser.Id) and e.name not in mi_.syms:
+                    implicit.add((mi_.name, e.name))
+    fatal = [x for x in fatal if not (x.code == 'undeclared_identifier' and (x.module, x.detail) in implicit)]
     if fatal:
         out.status = 'invalid_text'
         out.detail = repr(fatal[0])
         return out
+    out.implicit_nets = sorted(implicit)
     top = top_name or type(design.dut).__name__
     if top not in d.mods:
         out.status = 'invalid_text'
